@@ -271,6 +271,16 @@ def extract(ctx):
     gs = re.search(r"def __getstate__\(self\):\s*\n\s*return (.*)", pyx)
     lin = ctx.source("mlinsights/mlmodel/piecewise_tree_regression_criterion_linear.pyx")
     crit_lin = sorted(set(re.findall(r"^\s+def (__getstate__|__setstate__|__reduce__|__deepcopy__)\(", lin, flags=re.M)))
+
+    def deepcopy_body(src):
+        """the statements of `__deepcopy__` (docstring and blank lines dropped), normalised"""
+        m = re.search(r"def __deepcopy__\(self, memo=None\):\n((?:[ ]{8}.*\n|\s*\n)+)", src)
+        if not m:
+            return "?"
+        body = re.sub(r'"""[\s\S]*?"""', "", m.group(1))
+        return ";".join(x.strip() for x in body.split("\n") if x.strip())
+    dc = deepcopy_body(pyx)
+    dc_lin = deepcopy_body(lin)
     body = pyexpr.HEADER + """import MlVerif.Gen.Base
 namespace MlVerif.Gen.C04
 open MlVerif.Gen
@@ -312,6 +322,10 @@ def criterionSpecial : List String := [%(crit)s]
 /-- ... and of `LinearRegressorCriterion`, whose constructor takes the features instead of `n_samples` -/
 def criterionLinearSpecial : List String := [%(crit_lin)s]
 def criterionState : String := %(gs)s
+/-- body of `__deepcopy__` of the common criterion / of the linear criterion: scikit-learn's tree builder works on a
+deep copy of a criterion instance, which must be a NEW object -/
+def criterionDeepcopy : String := %(dc)s
+def criterionLinearDeepcopy : String := %(dc_lin)s
 
 end MlVerif.Gen.C04
 """ % dict(
@@ -319,7 +333,7 @@ end MlVerif.Gen.C04
         writes=", ".join("(%s, %s, %s)" % (_q(c), _q(m), _q(a)) for c, m, a in writes),
         fitted=",\n".join("  (%s, [%s])" % (_q(c), ", ".join(_q(a) for a in attrs)) for c, attrs in fitted),
         cond=cond, present=", ".join(_q(p) for p in present), top=", ".join(_q(p) for p in top),
-        crit=", ".join(_q(x) for x in crit), crit_lin=", ".join(_q(x) for x in crit_lin), gs=_q(gs.group(1).strip() if gs else "?"))
+        crit=", ".join(_q(x) for x in crit), crit_lin=", ".join(_q(x) for x in crit_lin), gs=_q(gs.group(1).strip() if gs else "?"), dc=_q(dc), dc_lin=_q(dc_lin))
     files["MlVerif/Gen/C04.lean"] = body
     return files
 
@@ -400,22 +414,29 @@ def build(ctx, name, rng):
             return DecisionTreeLogisticRegression(max_depth=5, min_samples_leaf=1, fit_improve_algo="none").fit(X, yc), \
                 ["predict", "predict_proba"], d
         if name == "PTR_mselin":
-            return PiecewiseTreeRegressor(max_depth=rng.randint(1, 3), min_samples_leaf=4).fit(X, yr), \
-                ["predict", "predict_leaves"], d
+            m = PiecewiseTreeRegressor(max_depth=rng.randint(1, 3), min_samples_leaf=4)
+            if rng.random() < 0.5:
+                m.set_params(criterion="simple").set_params(criterion="mselin")
+            return m.fit(X, yr), ["predict", "predict_leaves"], d
         if name == "PTR_simple":
-            return PiecewiseTreeRegressor(criterion="simple", max_depth=rng.randint(1, 3)).fit(X, yr), ["predict"], d
+            m = PiecewiseTreeRegressor(criterion="mselin" if rng.random() < 0.5 else "simple", max_depth=rng.randint(1, 3))
+            return m.set_params(criterion="simple").fit(X, yr), ["predict"], d
+        # half of the time the option that selects the code path is given through set_params on an instance built with
+        # ANOTHER value (what a parameter search does): the fitted model and its copies must not depend on the route
+        via = rng.random() < 0.5
         if name == "KM_L1":
-            return KMeansL1L2(rng.choice([2, 3]), norm="L1", n_init=1, max_iter=6, random_state=seed).fit(X[:30]), \
-                ["predict", "transform"], d
+            m = KMeansL1L2(rng.choice([2, 3]), norm="L2" if via else "L1", n_init=1, max_iter=6, random_state=seed)
+            return m.set_params(norm="L1").fit(X[:30]), ["predict", "transform"], d
         if name == "KM_L2":
-            return KMeansL1L2(rng.choice([2, 3]), norm="L2", n_init=1, max_iter=10, random_state=seed).fit(X), \
-                ["predict", "transform"], d
+            m = KMeansL1L2(rng.choice([2, 3]), norm="L1" if via else "L2", n_init=1, max_iter=10, random_state=seed)
+            return m.set_params(norm="L2").fit(X), ["predict", "transform"], d
         if name == "CKM_plain":
             return ConstraintKMeans(rng.choice([2, 3]), max_iter=10, random_state=seed, n_init=1).fit(X[:30]), \
                 ["predict", "transform"], d
         if name == "CKM_weights":
-            return ConstraintKMeans(rng.choice([2, 3]), max_iter=10, random_state=seed, n_init=1,
-                                    strategy="weights").fit(X[:30]), ["predict", "transform"], d
+            m = ConstraintKMeans(rng.choice([2, 3]), max_iter=10, random_state=seed, n_init=1,
+                                 strategy="gain" if rng.random() < 0.5 else "weights")
+            return m.set_params(strategy="weights").fit(X[:30]), ["predict", "transform"], d
         if name == "CAK":
             return ClassifierAfterKMeans(c_n_init=1, c_random_state=seed, e_max_iter=40).fit(X, yc), \
                 P3 + ["transform_features"], d
@@ -584,6 +605,26 @@ def check_estimator(ctx, name, gen_seed, n_batches=2):
         except Exception as e:
             return [("%s.fit:raises" % name, "fit raises on a valid training set",
                      "%s: %s" % (type(e).__name__, str(e)[:150]), "a fitted model")], info
+        # route "used, then fitted again": the object served predictions for an earlier training set before the fit whose
+        # model is examined - the batch outputs and the copies below describe the LAST fit only
+        target = {"PR": "yr", "PC": "yc", "DT": "yc", "PT": "yr", "KM": None, "CK": None}.get(name[:2], "skip")
+        if name == "CAK":
+            target = "yc"
+        info["refitted"] = False
+        if target != "skip" and rng.random() < 0.5:
+            try:
+                B0 = _batch(rng, d)
+                for meth in meths:
+                    getattr(model, meth)(B0)
+                X2, yr2, yc2 = _data(rng, d=d)
+                if target is None:
+                    model.fit(X2[:30])
+                else:
+                    model.fit(X2, yr2 if target == "yr" else yc2)
+                info["refitted"] = True
+            except Exception as e:  # noqa: BLE001
+                return [("%s.fit:raises" % name, "a second fit of a used model raises on a valid training set",
+                         "%s: %s" % (type(e).__name__, str(e)[:150]), "a fitted model")], info
         cls = type(model).__name__
         copies = {}
         for how, fn in (("pickle", lambda m: pickle.loads(pickle.dumps(m))),
@@ -612,7 +653,9 @@ def check_estimator(ctx, name, gen_seed, n_batches=2):
                                         "such row of the batch", out.tolist()[:4], fullG[rows_].tolist()[:4]))
                             break
         for b in range(n_batches):
-            B = _batch(rng, d)
+            B = _drop_ties(model, _batch(rng, d))
+            if B.shape[0] == 0:
+                continue
             for meth in meths:
                 f = getattr(model, meth)
                 full = numpy.asarray(f(B))
@@ -663,6 +706,9 @@ def check_estimator(ctx, name, gen_seed, n_batches=2):
         talls = [TALL_ROWS[(gen_seed + i) % len(TALL_ROWS)] for i in range(3 if ctx.thorough else 1)]
         for m_tall in talls:
             T = numpy.array([[rng.randint(-2, 12) for _ in range(d)] for _ in range(m_tall)], dtype=float)
+            T0 = _drop_ties(model, T)
+            if T0.shape[0] != T.shape[0] and T0.shape[0] > 0:       # keep the row count: repeat rows that have a route
+                T = T0[numpy.arange(m_tall) % T0.shape[0]]
             for meth in meths:
                 f = getattr(model, meth)
                 try:
@@ -719,6 +765,24 @@ def check_estimator(ctx, name, gen_seed, n_batches=2):
 
 
 TALL_ROWS = (1025, 2049, 4097, 1023, 2047, 4095, 8193)
+
+
+def _drop_ties(model, B):
+    """DecisionTreeLogisticRegression routes a row by `probability > threshold`; a row whose node probability equals the
+    threshold up to the last bits (BLAS rounds a batch product and a single-row product differently - declared in
+    DESIGN section 6) has no well-defined route in floating point and is left out, as in C10."""
+    import numpy
+    if type(model).__name__ != "DecisionTreeLogisticRegression":
+        return B
+    from props import c10
+    keep = []
+    for i in range(B.shape[0]):
+        try:
+            _, tie = c10._row_path(model.tree_, B[i], set())
+        except Exception:  # noqa: BLE001
+            tie = False
+        keep.append(not tie)
+    return B[numpy.array(keep, dtype=bool)] if any(keep) else B[:0]
 
 
 def _call_everything(model, B, yB, skip=()):
